@@ -47,7 +47,11 @@ type caseData struct {
 	Enum       bool   `json:"enum,omitempty"`    // not an input: enumerate builtins and methods
 	Key        string `json:"key,omitempty"`     // the case id (written to the stage log)
 
-	Script *scriptSpec `json:"script,omitempty"` // how a script was put together (for control variants)
+	Script    *scriptSpec  `json:"script,omitempty"`  // how a script was put together (for control variants)
+	Runaway   *runawaySpec `json:"runaway,omitempty"` // the runaway-recursion shape
+	StackMB   int          `json:"stack_mb,omitempty"` // screening stack limit for this case (default 16 MB)
+	CallNames []string     `json:"call_names,omitempty"` // functions risor.Call invokes (default: the first ones declared)
+	VMReuse   []string     `json:"vm_reuse,omitempty"`   // run the definitions on one VM, then vm.Call these in turn on it
 }
 
 type panicObs struct {
@@ -283,6 +287,9 @@ func worker(kind string, data json.RawMessage) any {
 		return o
 	}
 	want := screenStack
+	if c.StackMB > 0 {
+		want = c.StackMB << 20
+	}
 	if c.FullStack || os.Getenv("VERIF_C03_FULLSTACK") != "" {
 		want = defaultStackB
 	}
@@ -438,6 +445,10 @@ func (r *run) source(c *caseData, src string) {
 		}
 	}
 
+	if len(c.VMReuse) > 0 {
+		r.vmReuse(c, src, ctx, opts, dl)
+		return
+	}
 	if c.Direct {
 		var res object.Object
 		var err error
@@ -499,16 +510,22 @@ func (r *run) source(c *caseData, src string) {
 		o.Outcome += "+exit"
 	}
 	if c.Call {
-		names := funcDeclRe.FindAllStringSubmatch(src, 3)
-		for i, m := range names {
+		var names []string
+		for _, m := range funcDeclRe.FindAllStringSubmatch(src, 3) {
+			names = append(names, m[1])
+		}
+		if len(c.CallNames) > 0 {
+			names = c.CallNames
+		}
+		for i, name := range names {
 			var cres object.Object
 			var cerr error
 			var args []object.Object
-			if i == 1 {
+			if i == 1 && len(c.CallNames) == 0 {
 				args = []object.Object{object.NewInt(1)}
 			}
 			cctx, ccancel := context.WithTimeout(context.Background(), dl)
-			ok := r.guard("call", func() { cres, cerr = risor.Call(cctx, code, m[1], args, opts...) })
+			ok := r.guard("call", func() { cres, cerr = risor.Call(cctx, code, name, args, opts...) })
 			ccancel()
 			if !ok {
 				continue
